@@ -85,6 +85,14 @@ def build_frame(panel, scale=1.0, rename=None, date_shift=0, permute=True, id_in
       rows_v.append(float(vals[gi][di]) * scale)
   if panel.get('date_str'):
     rows_d = [d.strftime('%Y-%m-%d') for d in rows_d]      # ISO strings sort chronologically
+  for gi, di, delta in panel.get('dup_rows', []):
+    # a second row for an existing (geo, date) cell with another value (C12 only: how duplicates are combined is
+    # not specified, but it must not depend on the order of the rows)
+    gi, di = gi % len(panel['ids']), di % panel['n_dates']
+    name = rename[panel['ids'][gi]] if rename else panel['ids'][gi]
+    rows_d.append(dates[di].strftime('%Y-%m-%d') if panel.get('date_str') else dates[di])
+    rows_g.append(present_id(name, as_int and all(x.isdigit() for x in (rename.values() if rename else panel['ids']))))
+    rows_v.append((float(vals[gi][di]) + delta) * scale)
   df = pd.DataFrame({'date': rows_d, 'geo': rows_g, panel['resp_col']: rows_v})
   if panel.get('resp_int') and scale == 1.0 and not df[panel['resp_col']].isna().any():
     df[panel['resp_col']] = df[panel['resp_col']].astype('int64')
@@ -507,6 +515,17 @@ def run_search(case, method, seed_numpy=True, history=None):
     return ('rejected', str(e)[:200])
   except Exception as e:  # pylint: disable=broad-except
     return ('crash', core.crash_kind('build', e), str(e)[:200])
+  if history == 'other-search-first':
+    # the same searcher object has already run the other search
+    other = 'greedy_search' if method == 'exhaustive_search' else 'exhaustive_search'
+    try:
+      getattr(mm, other)()
+    except ValueError:
+      pass
+    except Exception as e:  # pylint: disable=broad-except
+      return ('crash', core.crash_kind(other + ':prefix', e), str(e)[:200])
+    if seed_numpy:
+      np.random.seed(12345)
   if history == 'shared-data':
     try:
       mm_b = tbrmatchedmarkets.TBRMatchedMarkets(mm.data, tbrmmdesignparameters.TBRMMDesignParameters(**other_kwargs(case.kwargs)))
